@@ -31,6 +31,7 @@ func features() sqlgen.Features {
 	f.DDL = hx.Allowed("c03.ddl")
 	f.QuotedDDLNames = hx.Allowed("c03.ddl_quoted_names")
 	f.IndexNulls = hx.Allowed("c03.index_nulls")
+	f.DDLExtras = hx.Allowed("c03.ddl_extras")
 	return f
 }
 
